@@ -299,6 +299,7 @@ func (db *RockDB) ZAdd(ts int64, key []byte, args ...common.ScorePair) (int64, e
 	if len(args) > MAX_BATCH_NUM {
 		return 0, errTooMuchBatchSize
 	}
+	args = dedupScorePairs(args)
 	keyInfo, err := db.prepareCollKeyForWrite(ts, ZSetType, key, nil)
 	if err != nil {
 		return 0, err
@@ -457,6 +458,7 @@ func (db *RockDB) ZRem(ts int64, key []byte, members ...[]byte) (int64, error) {
 	if len(members) > MAX_BATCH_NUM {
 		return 0, errTooMuchBatchSize
 	}
+	members = dedupMembers(members)
 	keyInfo, err := db.GetCollVersionKey(ts, ZSetType, key, false)
 	if err != nil {
 		return 0, err
